@@ -12,6 +12,7 @@ import (
 	"strconv"
 	"strings"
 	"sync"
+	"sync/atomic"
 	"time"
 
 	"github.com/plgd-dev/go-coap/v3/message/pool"
@@ -21,7 +22,7 @@ import (
 var activeTracker *poolTracker
 
 type lcEvent struct {
-	Kind string // Rel Rec Reacq Hold Unhold AppRel
+	Kind string // Rel Rec Reacq Hold Unhold AppRel Use
 	Obj  int
 	OK   bool // Reacq: poison intact; Unhold: content unchanged
 }
@@ -48,7 +49,11 @@ type poolTracker struct {
 	// scenarios that cut the trace into the windows of one goroutine (family E)
 	tagG bool
 	gids []int64
+	nUse int // Use events recorded by Used in the current scenario
+	gate atomic.Pointer[useGate]
 }
+
+func (t *poolTracker) setGate(g *useGate) { t.gate.Store(g) }
 
 // curGID returns the id of the calling goroutine (from the header line of its stack trace).
 func curGID() int64 {
@@ -86,6 +91,8 @@ func (t *poolTracker) note(e lcEvent) {
 	case "AppRel":
 		bad = st >= 2
 		st = 2
+	case "Use":
+		bad = st == 3 || st == 4
 	}
 	t.state[e.Obj] = st
 	if bad && !t.broken {
@@ -156,6 +163,7 @@ func (t *poolTracker) scenario(pools ...*pool.Pool) {
 	t.holds = map[*pool.Message]uint64{}
 	t.state = map[int]byte{}
 	t.broken = false
+	t.nUse = 0
 	if t.badAbort != nil {
 		t.badAbort()
 	}
@@ -316,6 +324,41 @@ func (t *poolTracker) AppRel(m *pool.Message) {
 	t.add(lcEvent{"AppRel", t.id(m), true})
 	t.mu.Unlock()
 }
+
+// Used (pool.VerifUseTracker): an accessor of m was called. Accesses to a message that is in nobody's hands (between
+// ReleaseMessage and the next hand-out by AcquireMessage) are recorded as `Use`; all other accesses are
+// not events of the trace (the ownership automaton ignores a Use of a message that is not released: Pool/Proofs.v
+// use_not_released_irrelevant), so leaving them out cannot turn a rejected trace into an accepted one or vice versa.
+// A message this scenario has not seen released or held is not looked at.
+func (t *poolTracker) Used(m *pool.Message) {
+	if g := t.gate.Load(); g != nil && g.m == m {
+		g.arrive() // family G: the n-th access of a foreign goroutine to this message waits here for the script
+	}
+	t.mu.Lock()
+	if id, ok := t.ids[m]; ok {
+		if st := t.state[id]; st == 3 || st == 4 {
+			t.nUse++
+			if t.nUse <= c12MaxUse { // a panicking or looping reader must not flood the trace
+				t.add(lcEvent{"Use", id, true})
+				if dbgC12() && t.nUse <= 3 {
+					buf := make([]byte, 4096)
+					fmt.Printf("use after release of object %d:\n%s\n", id, buf[:runtime.Stack(buf, false)])
+				}
+			}
+		}
+	}
+	t.mu.Unlock()
+}
+
+// Use: the library reached m through something the harness controls (the body of the application's request was
+// read or positioned); recorded whatever the state of m is.
+func (t *poolTracker) Use(m *pool.Message) {
+	t.mu.Lock()
+	t.add(lcEvent{"Use", t.id(m), true})
+	t.mu.Unlock()
+}
+
+const c12MaxUse = 40
 
 // peek returns the events recorded so far (the slice is only appended to).
 func (t *poolTracker) peek() []lcEvent {
